@@ -1088,4 +1088,309 @@ theorem certsOf_addValidCert (p : Pool) (c : Cert) : certsOf (p.addValidCert c).
   · rw [certsOf_append, certsOf_handleFin, certsOf_quiet (notifyWaiting_quiet _ _)]; rfl
   · rw [certsOf_handleFin]; rfl
 
+/-! ### `Wired`: the trackers of the pool are the trackers after the log -/
+
+/-- one operation of the parent-ready tracker on the tracker part of the pool (a panic leaves it unchanged) -/
+def Trk.prStep (k : Trk) (op : ParentReady.Op) : Trk :=
+  match ParentReady.applyOp k.pr op with
+  | .ok (t', _, w) => { k with pr := t', wakes := k.wakes ++ w }
+  | .error _ => k
+
+theorem prStep_fin (k : Trk) (op : ParentReady.Op) : (k.prStep op).fin = k.fin := by
+  unfold Trk.prStep; split <;> rfl
+
+theorem foldl_prStep_fin (ops : List ParentReady.Op) (k : Trk) : (ops.foldl Trk.prStep k).fin = k.fin := by
+  induction ops generalizing k with
+  | nil => rfl
+  | cons op ops ih => rw [List.foldl_cons, ih, prStep_fin]
+
+theorem prStep_withFin (k : Trk) (f : Finality.Tracker) (op : ParentReady.Op) :
+    ({ k with fin := f } : Trk).prStep op = { k.prStep op with fin := f } := by
+  unfold Trk.prStep
+  dsimp only
+  cases ParentReady.applyOp k.pr op with
+  | error x => rfl
+  | ok r => rfl
+
+theorem foldl_prStep_withFin (ops : List ParentReady.Op) (k : Trk) (f : Finality.Tracker) :
+    ops.foldl Trk.prStep { k with fin := f } = { ops.foldl Trk.prStep k with fin := f } := by
+  induction ops generalizing k with
+  | nil => rfl
+  | cons op ops ih => rw [List.foldl_cons, List.foldl_cons, prStep_withFin, ih]
+
+theorem applyPr_nf_eq (k : Trk) (b : Nat × Nat) :
+    k.applyPr (ParentReady.markNotarFallback k.pr b) = k.prStep (.nf b) := by
+  unfold Trk.applyPr Trk.prStep
+  simp only [ParentReady.applyOp]
+  cases ParentReady.markNotarFallback k.pr b with
+  | none => rfl
+  | some x => obtain ⟨pr, a, w⟩ := x; rfl
+
+theorem applyPr_skip_eq (k : Trk) (s : Nat) :
+    k.applyPr (ParentReady.markSkipped k.pr s) = k.prStep (.skip s) := by
+  unfold Trk.applyPr Trk.prStep
+  simp only [ParentReady.applyOp]
+  cases ParentReady.markSkipped k.pr s with
+  | none => rfl
+  | some x => obtain ⟨pr, a, w⟩ := x; rfl
+
+theorem handleFin_eq (k : Trk) (op : Finality.Op) :
+    k.handleFin (Finality.step k.fin op) =
+      (finPart k.fin op).2.foldl Trk.prStep { k with fin := (finPart k.fin op).1 } := by
+  unfold Trk.handleFin finPart
+  cases Finality.step k.fin op with
+  | panic => rfl
+  | ok t ev =>
+    simp only [List.foldl_cons, List.foldl_nil]
+    unfold Trk.applyPr Trk.prStep
+    simp only [ParentReady.applyOp]
+    cases ParentReady.handleFinalization k.pr ev with
+    | none => simp
+    | some x => obtain ⟨pr, a, w⟩ := x; simp
+
+/-- the tracker part of the pool after a log item = the item's parent-ready operations applied one by one -/
+theorem trk_item_eq (k : Trk) (it : LogItem) :
+    k.item it = (itemStep k.fin it).2.foldl Trk.prStep { k with fin := (itemStep k.fin it).1 } := by
+  unfold itemStep
+  cases it with
+  | block b par =>
+    have := handleFin_eq k (.parent b par)
+    simpa [Trk.item, LogItem.finOp, LogItem.marks, finParts, Finality.step] using this
+  | cert c =>
+    unfold Trk.item Trk.addValidCert
+    cases hk : c.kind
+    · -- notar
+      have := handleFin_eq k (.notar (c.slot, c.hash))
+      simp only [Finality.step] at this
+      simp only [LogItem.finOp, LogItem.marks, hk, finParts, List.append_nil, List.foldl_append, List.foldl_cons, List.foldl_nil]
+      rw [applyPr_nf_eq, this]
+    · simp only [LogItem.finOp, LogItem.marks, hk, finParts, List.nil_append, List.foldl_cons, List.foldl_nil]
+      exact applyPr_nf_eq k _
+    · simp only [LogItem.finOp, LogItem.marks, hk, finParts, List.nil_append, List.foldl_cons, List.foldl_nil]
+      exact applyPr_skip_eq k _
+    · have := handleFin_eq k (.fastFinal (c.slot, c.hash))
+      simpa [LogItem.finOp, LogItem.marks, hk, finParts, Finality.step] using this
+    · have := handleFin_eq k (.final c.slot)
+      simpa [LogItem.finOp, LogItem.marks, hk, finParts, Finality.step] using this
+
+open ParentReady in
+theorem run_append (tr ops : List Op) : run (tr ++ ops) = ops.foldl runStep (run tr) := by
+  unfold run; rw [List.foldl_append]
+
+open ParentReady in
+theorem foldl_runStep_error (ops : List Op) (e : Panic) : ops.foldl runStep (.error e) = .error e := by
+  induction ops with
+  | nil => rfl
+  | cons op ops ih => rw [List.foldl_cons]; exact ih
+
+open ParentReady in
+/-- a successful run of further operations acts on the tracker part of the pool as `Trk.prStep` does -/
+theorem run_fold {tr ops : List Op} {k : Trk} {anns : List (Nat × (Nat × Nat))} {st' : RunState}
+    (h0 : run tr = .ok ⟨k.pr, anns, k.wakes⟩) (h1 : run (tr ++ ops) = .ok st') :
+    ∃ anns', st' = ⟨(ops.foldl Trk.prStep k).pr, anns', (ops.foldl Trk.prStep k).wakes⟩ := by
+  induction ops generalizing tr k anns with
+  | nil =>
+    rw [List.append_nil, h0] at h1
+    cases h1
+    exact ⟨anns, rfl⟩
+  | cons op ops ih =>
+    have e : tr ++ op :: ops = (tr ++ [op]) ++ ops := by simp
+    rw [e] at h1
+    have h2 : run (tr ++ [op]) = runStep (run tr) op := run_snoc tr op
+    rw [h0] at h2
+    simp only [runStep, RunState.step] at h2
+    cases ha : applyOp k.pr op with
+    | error x =>
+      rw [ha] at h2
+      rw [run_append, h2, foldl_runStep_error] at h1
+      cases h1
+    | ok r =>
+      obtain ⟨t', a, w⟩ := r
+      rw [ha] at h2
+      simp only at h2
+      have hk : k.prStep op = { k with pr := t', wakes := k.wakes ++ w } := by
+        unfold Trk.prStep; rw [ha]
+      have := @ih (tr ++ [op]) (k.prStep op) (anns ++ a) (by rw [h2, hk]) h1
+      rw [List.foldl_cons]
+      exact this
+
+/-- **The wiring invariant**: the finality tracker of the pool is the finality tracker after the finality
+    operations of the log; the parent-ready tracker (and the wake-ups sent so far) are the result of running the
+    trace `prTrace L` — marks, finalization batches, prunes — from `ParentReadyTracker::default()`, without panic. -/
+structure Wired (k : Trk) (L : List LogItem) : Prop where
+  fin : finState L = k.fin
+  pr : ∃ anns, ParentReady.run (prTrace L) = .ok ⟨k.pr, anns, k.wakes⟩
+
+theorem Wired.init (e : Epoch) : Wired ({ epoch := e } : Pool).trk [] :=
+  ⟨rfl, ⟨[], rfl⟩⟩
+
+open ParentReady in
+/-- **Every log item keeps the wiring invariant** as long as the history stays consistent: neither tracker
+    panics, the pool prunes the parent-ready tracker exactly to the new watermark. -/
+theorem Wired.item {k : Trk} {L : List LogItem} (w : Wired k L) (it : LogItem) (hc : Consistent (L ++ [it])) :
+    Wired (k.item it) (L ++ [it]) := by
+  have hsr := safeRun_prTrace hc
+  obtain ⟨fevs, _, ti⟩ := trace_inv _ hc.safe
+  rcases reach_inv _ hsr with ⟨st, hst, _⟩ | ⟨_, hnd⟩
+  · obtain ⟨anns, hpr⟩ := w.pr
+    rw [prTrace_snoc] at hst
+    obtain ⟨anns', e⟩ := run_fold hpr hst
+    refine ⟨?_, ?_⟩
+    · rw [finState_snoc, w.fin, trk_item_eq, foldl_prStep_fin]
+    · refine ⟨anns', ?_⟩
+      rw [prTrace_snoc, hst, e, trk_item_eq, w.fin,
+        foldl_prStep_withFin (itemStep k.fin it).2 k (itemStep k.fin it).1]
+  · exfalso
+    rw [ti.nowait] at hnd
+    exact hnd List.nodup_nil
+
+/-! ### every pool operation keeps the wiring invariant -/
+
+/-- the ghost log of one pool operation: the block registration (if it is one), then the `CertCreated` events -/
+def stepItems (op : PoolOp) (evs : List Event) : List LogItem :=
+  (match op with | .block b par => [LogItem.block b par] | _ => []) ++ certsOf evs
+
+/-- **The ghost log of a pool run**: block registrations and `CertCreated` events, in order. -/
+def poolLog (p : Pool) : List PoolOp → List LogItem
+  | [] => []
+  | op :: ops => stepItems op (poolStep p op).2 ++ poolLog (poolStep p op).1 ops
+
+theorem addValidCert_wired (p : Pool) (c : Cert) (L : List LogItem) (w : Wired p.trk L)
+    (hc : Consistent (L ++ [.cert c])) : Wired (p.addValidCert c).1.trk (L ++ [.cert c]) := by
+  rw [addValidCert_trk]
+  exact w.item (.cert c) hc
+
+theorem certsOf_addValidCerts (cs : List Cert) (r : Pool) (acc : List Event) :
+    certsOf (r.addValidCerts cs acc).2 = certsOf acc ++ cs.map LogItem.cert := by
+  induction cs generalizing r acc with
+  | nil => simp [Pool.addValidCerts]
+  | cons c cs ih =>
+    unfold Pool.addValidCerts
+    dsimp only
+    rw [ih, certsOf_append, certsOf_addValidCert]
+    simp
+
+theorem addValidCerts_wired (cs : List Cert) (p : Pool) (acc : List Event) (L : List LogItem) (w : Wired p.trk L)
+    (hc : Consistent (L ++ cs.map LogItem.cert)) :
+    Wired (p.addValidCerts cs acc).1.trk (L ++ cs.map LogItem.cert) := by
+  induction cs generalizing p acc L with
+  | nil => simpa [Pool.addValidCerts] using w
+  | cons c cs ih =>
+    unfold Pool.addValidCerts
+    dsimp only
+    have e : L ++ (c :: cs).map LogItem.cert = (L ++ [.cert c]) ++ cs.map LogItem.cert := by simp
+    rw [e] at hc ⊢
+    have w1 := addValidCert_wired p c L w hc.prefix
+    exact ih (p.addValidCert c).1 (acc ++ (p.addValidCert c).2) (L ++ [.cert c]) w1 hc
+
+/-- `add_vote`: refused (nothing changes for the trackers, nothing is announced), or the created certificates are
+    added one by one -/
+theorem addVote_cases (p : Pool) (v : Vote) :
+    ((p.addVote v).1.trk = p.trk ∧ certsOf (p.addVote v).2.2 = []) ∨
+    (∃ (q : Pool) (cs : List Cert), q.trk = p.trk ∧ (p.addVote v).1 = (q.addValidCerts cs []).1 ∧
+      certsOf (p.addVote v).2.2 = cs.map LogItem.cert) := by
+  unfold Pool.addVote
+  split
+  · exact Or.inl ⟨rfl, rfl⟩
+  split
+  · exact Or.inl ⟨rfl, rfl⟩
+  dsimp only
+  split
+  · exact Or.inl ⟨slotState_trk _ _, rfl⟩
+  · split
+    · exact Or.inl ⟨slotState_trk _ _, rfl⟩
+    · right
+      refine ⟨_, _, ?_, rfl, ?_⟩
+      · rw [putSlot_trk, slotState_trk]
+      · dsimp only
+        rw [certsOf_append, certsOf_addValidCerts, certsOf_quiet (slot_addVote_quiet _ _ _)]
+        simp [certsOf]
+
+theorem addVote_wired (p : Pool) (v : Vote) (L : List LogItem) (w : Wired p.trk L)
+    (hc : Consistent (L ++ certsOf (p.addVote v).2.2)) :
+    Wired (p.addVote v).1.trk (L ++ certsOf (p.addVote v).2.2) := by
+  rcases addVote_cases p v with ⟨h1, h2⟩ | ⟨q, cs, h1, h2, h3⟩
+  · rw [h1, h2, List.append_nil]; exact w
+  · rw [h3] at hc ⊢
+    rw [h2]
+    exact addValidCerts_wired cs q [] L (by rw [h1]; exact w) hc
+
+theorem addCert_cases (p : Pool) (c : Cert) :
+    ((p.addCert c).1.trk = p.trk ∧ certsOf (p.addCert c).2.2 = []) ∨
+    (∃ q : Pool, q.trk = p.trk ∧ (p.addCert c).1 = (q.addValidCert c).1 ∧ certsOf (p.addCert c).2.2 = [.cert c]) := by
+  unfold Pool.addCert
+  split
+  · exact Or.inl ⟨rfl, rfl⟩
+  dsimp only
+  split <;> split
+  all_goals first
+    | exact Or.inl ⟨slotState_trk _ _, rfl⟩
+    | exact Or.inr ⟨_, slotState_trk _ _, rfl, certsOf_addValidCert _ _⟩
+
+theorem addCert_wired (p : Pool) (c : Cert) (L : List LogItem) (w : Wired p.trk L)
+    (hc : Consistent (L ++ certsOf (p.addCert c).2.2)) :
+    Wired (p.addCert c).1.trk (L ++ certsOf (p.addCert c).2.2) := by
+  rcases addCert_cases p c with ⟨h1, h2⟩ | ⟨q, h1, h2, h3⟩
+  · rw [h1, h2, List.append_nil]; exact w
+  · rw [h3] at hc ⊢
+    rw [h2]
+    exact addValidCert_wired q c L (by rw [h1]; exact w) hc
+
+theorem certsOf_addBlockTail (p : Pool) (b par : Nat × Nat) (e0 : List Event) (cert : Bool) :
+    certsOf (Pool.addBlockTail p b par e0 cert).2 = certsOf e0 := by
+  unfold Pool.addBlockTail
+  split
+  · split
+    · rw [certsOf_append]; simp [certsOf]
+    · rename_i st evs hn
+      split
+      · rfl
+      · rw [certsOf_append, certsOf_quiet (notifyParentCertified_quiet _ _ _ _ _ hn), List.append_nil]
+  · rfl
+
+theorem certsOf_addBlock (p : Pool) (b par : Nat × Nat) : certsOf (p.addBlock b par).2 = [] := by
+  unfold Pool.addBlock
+  split
+  · rfl
+  split
+  · rfl
+  · dsimp only
+    split
+    · exact certsOf_applyPr _ _
+    · rw [certsOf_addBlockTail]; exact certsOf_applyPr _ _
+
+theorem addBlock_wired (p : Pool) (b par : Nat × Nat) (L : List LogItem) (w : Wired p.trk L)
+    (hc : Consistent (L ++ [.block b par])) : Wired (p.addBlock b par).1.trk (L ++ [.block b par]) := by
+  have hlt : par.1 < b.1 := by
+    apply hc.safe.link_lt b par
+    show Finality.Op.parent b par ∈ finOps (L ++ [.block b par])
+    rw [finOp_snoc]
+    exact List.mem_append_right _ (List.mem_singleton.mpr rfl)
+  rw [addBlock_trk p b par hlt]
+  exact w.item (.block b par) hc
+
+/-- one pool operation -/
+theorem poolStep_wired (p : Pool) (op : PoolOp) (L : List LogItem) (w : Wired p.trk L)
+    (hc : Consistent (L ++ stepItems op (poolStep p op).2)) :
+    Wired (poolStep p op).1.trk (L ++ stepItems op (poolStep p op).2) := by
+  cases op with
+  | vote v => exact addVote_wired p v L w (by simpa [stepItems, poolStep] using hc)
+  | cert c => exact addCert_wired p c L w (by simpa [stepItems, poolStep] using hc)
+  | block b par =>
+    have : stepItems (.block b par) (poolStep p (.block b par)).2 = [.block b par] := by
+      simp [stepItems, poolStep, certsOf_addBlock]
+    rw [this] at hc ⊢
+    exact addBlock_wired p b par L w hc
+
+/-- **Every pool reachable from a wired pool by votes, certificates and block registrations is wired**, as long as
+    the history (the log) is consistent. -/
+theorem poolRun_wired (ops : List PoolOp) (p : Pool) (L : List LogItem) (w : Wired p.trk L)
+    (hc : Consistent (L ++ poolLog p ops)) : Wired (poolRun p ops).1.trk (L ++ poolLog p ops) := by
+  induction ops generalizing p L with
+  | nil => simpa [poolLog, poolRun] using w
+  | cons op ops ih =>
+    simp only [poolLog, poolRun] at hc ⊢
+    rw [← List.append_assoc] at hc ⊢
+    exact ih _ _ (poolStep_wired p op L w hc.prefix) hc
+
 end AgModel.Pool
